@@ -56,6 +56,45 @@ pub fn host(r: &mut StdRng, nt: usize, nc: usize, nb: usize, pedge: f64, cat: bo
     mk(&vs, &es, &[], &outs, [1, 0, 0, 0, 0])
 }
 
+/// A closed graph-like host in which THREE OR FOUR phase gadgets sit on exactly the same support of 2..3 spiders (seed C05_f: the
+/// full simplification level fuses them in ONE fuse_gadgets step, whose scalar exponent depends on the number of gadgets
+/// merged), sometimes with a further gadget on another support.
+pub fn host_gadgets(r: &mut StdRng) -> Value {
+    let mut vs = vec![];
+    let mut es: Vec<(usize, usize, &str)> = vec![];
+    let nsp = r.random_range(2..=3usize);
+    for i in 0..nsp {
+        vs.push(AV { id: i + 1, ty: "Z", ph: r.random_range(0..8), vars: vec![] });
+    }
+    for i in 0..nsp {
+        for j in (i + 1)..nsp {
+            if r.random_bool(0.5) {
+                es.push((i + 1, j + 1, "H"));
+            }
+        }
+    }
+    let support: Vec<usize> = if nsp == 2 || r.random_bool(0.5) { (1..=nsp).collect() } else { vec![1, r.random_range(2..=3)] };
+    let ng = r.random_range(3..=4usize);
+    let mut next = nsp + 1;
+    let extra = r.random_bool(0.4) as usize;
+    for gi in 0..(ng + extra) {
+        let (hub, leaf) = (next, next + 1);
+        next += 2;
+        vs.push(AV { id: hub, ty: "Z", ph: 0, vars: vec![] });
+        vs.push(AV { id: leaf, ty: "Z", ph: [1, 3, 5, 7, 2, 1][r.random_range(0..6)], vars: vec![] });
+        es.push((hub, leaf, "H"));
+        if gi < ng {
+            for &t in &support {
+                es.push((hub, t, "H"));
+            }
+        } else {
+            es.push((hub, 1, "H"));
+            es.push((hub, nsp, "H"));
+        }
+    }
+    mk(&vs, &es, &[], &[], [1, 0, 0, 0, 0])
+}
+
 fn decomp_json(d: &Decomp) -> Value {
     let (k, v) = match d {
         Decomp::CatDecomp(v) => ("CatDecomp", v),
@@ -254,7 +293,7 @@ pub fn record(args: &[String], seed: u64, tr: &mut Tr) -> Value {
     for i in 0..nruns {
         let nt = 1 + i % maxt.min(7);
         let nc = r.random_range(0..=3);
-        let a = host(&mut r, nt, nc, 0, 0.45, i % 2 == 0);
+        let a = if i % 4 == 3 { host_gadgets(&mut r) } else { host(&mut r, nt, nc, 0, 0.45, i % 2 == 0) };
         runs += record_runs(&a, tr, &mut r, all_threads);
     }
     // closed diagrams from Clifford+T circuits with basis states plugged in
